@@ -17,7 +17,8 @@ DRIVERS: dict[str, list[list[str]]] = {
     "C10": [["drivers/endpoints.py", "--max-len", "4", "--asynchronous"], ["drivers/endpoints.py", "--max-len", "5", "--faults"]],
     "C04": [["drivers/sendpaths.py"]],
     "C11": [["drivers/budget.py"]],
-    "C06": [["drivers/framings.py"], ["drivers/streams.py", "--max-len", "5"], ["drivers/streams.py", "--mode", "directed"]],
+    "C05": [["drivers/framings.py", "--oneshot"]],
+    "C06": [["drivers/framings.py"], ["drivers/framings.py", "--oneshot"], ["drivers/streams.py", "--max-len", "5"], ["drivers/streams.py", "--mode", "directed"]],
     "C20": [["drivers/flow_control.py"]],
     "C19": [["drivers/connect_race.py"]],
     "C15": [["drivers/stream_server.py", "--max-frames", "2"]],
